@@ -1083,7 +1083,10 @@ def build_transform_scenario(c) -> Scenario:
         else:
             g2 = _tgrid(D, ac=False)
         pool.append(g2)
-        same = int(t.grid() == g2)
+        # base.py grid_ (after fix 1487985): unchanged iff the grids compare equal AND carry the same align_corners flag
+        same = int(t.grid() == g2 and t.grid().align_corners() == g2.align_corners())
+        if isinstance(t, S.BSplineTransform):
+            same = int(t.grid() == g2)      # bspline.py grid_ has its own test `self._grid != grid` (flag not compared)
         sub = int(v == "size")
         valid = int(g2.align_corners() and g2.same_domain_as(t.grid()))
         steps = [(0, 1, f"tgrid {flags} {same} {sub} {valid} {{imm:{g2.align_corners()}}}", lambda s, a: s.grid(a))]
